@@ -497,82 +497,105 @@ func c03configured(c *an.Ctx) {
 
 func caseClauseOf(fn *an.Fn, name string) *ast.CaseClause { return caseClause(fn, name) }
 
-// c03lexText: the ignore() in lexText drops exactly the trimLength bytes, after the pending text was emitted.
+// c03lexText: the ignore() in lexText drops exactly the trimLength bytes, after the pending text was
+// emitted.  Decided as a typestate over the paths of lexText (helpers spliced in): on every path to that
+// ignore() the events are  pos -= T ; pending text emitted (or nothing pending) ; pos += T  with the same
+// T, and T is 0 or — under the left-trim-marker test — rightTrimLength of the pending text.
 func c03lexText(c *an.Ctx, f *an.Fn, ign *ast.CallExpr) {
 	p := c.P
 	info := f.Info()
-	// the block containing the ignore: a sequence of statements
-	var block *ast.BlockStmt
-	for _, enc := range an.EnclosingStmts(f, ign) {
-		if b, ok := enc.(*ast.BlockStmt); ok {
-			block = b
-		}
-	}
 	key := "lexText/ignore"
-	if block == nil {
-		c.Undecided("C03.drop", key, ign.Pos(), "enclosing block not found")
-		return
-	}
-	// events in order
-	var ev []string
-	var trimVar types.Object
-	for _, st := range block.List {
-		switch s := st.(type) {
-		case *ast.AssignStmt:
-			if len(s.Lhs) == 1 && p.FieldKey(info, s.Lhs[0]) == "lexer.pos" && (s.Tok == token.SUB_ASSIGN || s.Tok == token.ADD_ASSIGN) {
-				if id, ok := an.Unparen(s.Rhs[0]).(*ast.Ident); ok {
-					o := an.ObjOf(info, id)
-					if trimVar == nil {
-						trimVar = o
-					}
-					if o == trimVar {
-						ev = append(ev, s.Tok.String()+"trim")
-						continue
-					}
-				}
-				ev = append(ev, s.Tok.String()+"other:"+an.Str(s.Rhs[0]))
-			}
-		case *ast.IfStmt:
-			cond := strings.ReplaceAll(an.Str(s.Cond), " ", "")
-			if cond == "l.pos>l.start" && len(s.Body.List) == 1 && strings.Contains(an.StmtStr(s.Body.List[0]), "emit(itemText)") {
-				ev = append(ev, "emit-pending")
-			}
-		case *ast.ExprStmt:
-			if call, ok := s.X.(*ast.CallExpr); ok && call == ign {
-				ev = append(ev, "ignore")
-			}
+	bad, reached := "", false
+	var badFacts []string
+	note := func(msg string, st *an.State) {
+		if bad == "" {
+			bad, badFacts = msg, an.Facts(st)
 		}
 	}
-	seq := strings.Join(ev, " ")
-	okSeq := seq == "-=trim emit-pending +=trim ignore"
-	// trimLength: zero, or rightTrimLength(l.input[l.start:l.pos]) under the left-trim-marker test
-	okTrim := false
-	if trimVar != nil {
-		defs := an.LocalDefs(f, trimVar)
-		zero, cond := false, false
-		for _, d := range defs {
-			if d == nil {
-				continue
-			}
-			s := strings.ReplaceAll(an.Str(d), " ", "")
-			switch {
-			case s == "Pos(0)" || s == "0":
-				zero = true
-			case s == "rightTrimLength(l.input[l.start:l.pos])":
-				// guarded by HasPrefix(..., leftTrimMarker)
-				for _, enc := range an.EnclosingStmts(f, d) {
-					if is, ok := enc.(*ast.IfStmt); ok && strings.Contains(an.Str(is.Cond), "strings.HasPrefix(") && strings.HasSuffix(strings.ReplaceAll(an.Str(is.Cond), " ", ""), "leftTrimMarker)") {
-						cond = true
+	hooks := an.Hooks{
+		PreAssign: func(x *an.Explorer, lhs, rhs ast.Expr, stmt ast.Node, st *an.State) {
+			as, isAs := stmt.(*ast.AssignStmt)
+			// l.pos -= T / l.pos += T
+			if isAs && len(as.Lhs) == 1 && p.FieldKey(info, lhs) == "lexer.pos" && (as.Tok == token.SUB_ASSIGN || as.Tok == token.ADD_ASSIGN) {
+				if id, ok := an.Unparen(as.Rhs[0]).(*ast.Ident); ok {
+					name := id.Name
+					if as.Tok == token.SUB_ASSIGN {
+						st.Set("seq", "sub:"+name+":"+st.Get("T:"+name))
+					} else if st.Get("seq") != "" {
+						st.Set("seq", st.Get("seq")+" add:"+name)
 					}
 				}
-			default:
-				zero = false
-				cond = false
-				defs = nil
+				return
 			}
-		}
-		okTrim = zero && cond && len(defs) == 2
+			// definitions of a trim-length variable
+			if id, ok := an.Unparen(lhs).(*ast.Ident); ok && rhs != nil && isAs && (as.Tok == token.DEFINE || as.Tok == token.ASSIGN) {
+				kind := ""
+				r := an.Unparen(rhs)
+				if tv, ok := info.Types[r]; ok && tv.Value != nil && tv.Value.ExactString() == "0" {
+					kind = "zero"
+				}
+				if call, ok := r.(*ast.CallExpr); ok {
+					if an.CalleeName(info, call) == "jet.rightTrimLength" && len(call.Args) == 1 && strings.ReplaceAll(an.Norm(f, call.Args[0]), " ", "") == "$p0.input[$p0.start:$p0.pos]" {
+						kind = "other"
+						for k, v := range st.Facts {
+							pk := an.PlainKey(k)
+							if v && strings.Contains(pk, "strings.HasPrefix(") && strings.HasSuffix(pk, "leftTrimMarker)") {
+								kind = "rtl"
+							}
+						}
+					}
+				}
+				if kind != "" {
+					st.Set("T:"+id.Name, kind)
+				}
+			}
+		},
+		Branch: func(x *an.Explorer, cond ast.Expr, val bool, st *an.State) {
+			// nothing pending: l.pos > l.start is false
+			if b, ok := an.Unparen(cond).(*ast.BinaryExpr); ok && !val && strings.HasPrefix(st.Get("seq"), "sub:") && !strings.Contains(st.Get("seq"), " ") {
+				l, r := p.FieldKey(info, b.X), p.FieldKey(info, b.Y)
+				if (b.Op == token.GTR && l == "lexer.pos" && r == "lexer.start") || (b.Op == token.LSS && l == "lexer.start" && r == "lexer.pos") {
+					st.Set("seq", st.Get("seq")+" pend")
+				}
+			}
+		},
+		Call: func(x *an.Explorer, call *ast.CallExpr, st *an.State) {
+			if an.IsCallTo(info, call, "(*jet.lexer).emit") && len(call.Args) == 1 && an.Str(call.Args[0]) == "itemText" {
+				if seq := st.Get("seq"); strings.HasPrefix(seq, "sub:") && !strings.Contains(seq, " ") {
+					st.Set("seq", seq+" pend")
+				}
+			}
+			if call != ign {
+				return
+			}
+			reached = true
+			seq := st.Get("seq")
+			parts := strings.Split(seq, " ")
+			if len(parts) != 3 || parts[1] != "pend" {
+				note("the ignore() is reached after the events `"+seq+"`, not after `pos -= T; emit pending text; pos += T`", st)
+				return
+			}
+			sub := strings.Split(parts[0], ":")
+			if len(sub) != 3 || parts[2] != "add:"+sub[1] {
+				note("the position is not moved back by the same amount it was moved forward (`"+seq+"`)", st)
+				return
+			}
+			if sub[2] != "zero" && sub[2] != "rtl" {
+				note("the trimmed length is neither 0 nor rightTrimLength(pending text) under the left-trim-marker test (`"+seq+"`)", st)
+			}
+		},
 	}
-	c.Check(okSeq && okTrim, "C03.drop", key, ign.Pos(), "before a left delimiter exactly the trimmed whitespace run is discarded, after the text before it was emitted",
-		fmt.Sprintf("lexText's ignore() is not the sequence `pos -= trimLength; emit pending text; pos += trimLength; ignore()` with trimLength = rightTrimLength(pending text) under the left-trim-marker test (saw: %s; trimLength ok: %v): text before an action is dropped or not trimmed", seq, okTrim))
+	x := p.NewExplorer(f, hooks)
+	x.Run(nil)
+	c.States += x.Visited
+	switch {
+	case x.Undecided != "":
+		c.Undecided("C03.drop", key, ign.Pos(), "%s", x.Undecided)
+	case !reached:
+		c.Undecided("C03.drop", key, ign.Pos(), "the ignore() call was not reached by the exploration")
+	case bad != "":
+		c.Bad("C03.drop", key, ign.Pos(), badFacts, "lexText's ignore() is not preceded on every path by `pos -= trimLength; emit pending text; pos += trimLength` with trimLength = rightTrimLength(pending text) under the left-trim-marker test (%s): text before an action is dropped or not trimmed", bad)
+	default:
+		c.OK("C03.drop", key, ign.Pos(), "before a left delimiter exactly the trimmed whitespace run is discarded, after the text before it was emitted")
+	}
 }
